@@ -2,6 +2,7 @@ package keeper
 
 import (
 	"fmt"
+	"math"
 	"math/big"
 
 	errorsmod "cosmossdk.io/errors"
@@ -151,7 +152,13 @@ func (k *Keeper) ApplyTransaction(ctx sdk.Context, tx *ethtypes.Transaction) (*e
 		// Opcode REVERT provides a way to stop execution and revert state changes, without consuming all provided gas.
 		// Thus, all the other failure will consume all gas.
 		// That why we are going to consume all gas here because this is not caused-by-REVERT-opcode.
-		k.ResetGasMeterAndConsumeGas(ctx, ctx.GasMeter().Limit())
+		//
+		// An infinite gas meter (the message runs in the end blocker, e.g. as part of a passed governance proposal)
+		// reports the maximum uint64 as its limit: consuming that would make the next gas consumption of
+		// the end blocker overflow and panic, there is no limit to consume in that case.
+		if limit := ctx.GasMeter().Limit(); limit != math.MaxUint64 {
+			k.ResetGasMeterAndConsumeGas(ctx, limit)
+		}
 
 		return nil, errorsmod.Wrap(err, "failed to apply ethereum core message")
 	}
